@@ -3,6 +3,7 @@ package simrt
 import (
 	"fmt"
 	"iter"
+	"reflect"
 	"sort"
 )
 
@@ -27,7 +28,7 @@ func OrderedMap[M ~map[K]V, K comparable, V any](m M) iter.Seq2[K, V] {
 		}
 		keys := make([]ks, 0, len(m))
 		for k := range m {
-			keys = append(keys, ks{k, fmt.Sprintf("%v", k)})
+			keys = append(keys, ks{k, keyString(k)})
 		}
 		sort.Slice(keys, func(i, j int) bool { return keys[i].s < keys[j].s })
 		for _, e := range keys {
@@ -40,4 +41,23 @@ func OrderedMap[M ~map[K]V, K comparable, V any](m M) iter.Seq2[K, V] {
 			}
 		}
 	}
+}
+
+// keyString renders a map key canonically. Pointer (and interface-holding-pointer) keys are
+// rendered through their pointee: objects of the code under test carry deterministic names and
+// ids in their leading fields, which decides the order before any address is compared.
+func keyString(k any) (s string) {
+	defer func() {
+		if recover() != nil {
+			s = fmt.Sprintf("%v", k)
+		}
+	}()
+	v := reflect.ValueOf(k)
+	for v.IsValid() && (v.Kind() == reflect.Pointer || v.Kind() == reflect.Interface) && !v.IsNil() {
+		v = v.Elem()
+	}
+	if v.IsValid() && v.CanInterface() {
+		return fmt.Sprintf("%T:%v", k, v.Interface())
+	}
+	return fmt.Sprintf("%v", k)
 }
